@@ -353,7 +353,7 @@ void World::free_info(char *info) {
 }
 
 void World::fw_push(int code, const char *text, size_t len) {
-    canon += fmt("fw push %d %s %zu\n", code, text ? c_escape(std::string(text, len ? len : strlen(text))).c_str() : "-", len);
+    canon += fmt("fw push %d %s %zu\n", code, text ? c_escape(std::string(text, (len && len < strlen(text)) ? len : strlen(text))).c_str() : "-", len);
     nontrivial = true;
     if (text) {
         // hand the library an exact-size NUL-terminated copy so that any over-read traps
